@@ -36,6 +36,8 @@ PATTERNS = [
     r"celeritas::detail::InterpolatorTraits::",
     # C12.7-ray-consistency: sense function / ray equation / gradient of the quadric surfaces
     r"celeritas::(PlaneAligned|Plane|SphereCentered|Sphere|CylCentered|CylAligned|ConeAligned|SimpleQuadric|GeneralQuadric)::calc_(sense|intersections|normal)$",
+    # ... and every other method of these classes (private helpers the three methods may call)
+    r"celeritas::(PlaneAligned|Plane|SphereCentered|Sphere|CylCentered|CylAligned|ConeAligned|SimpleQuadric|GeneralQuadric)(<[^>]*>)?::",
 ]
 
 
